@@ -1,5 +1,7 @@
 """Dump the live rig.routing_table.Routes enumeration as Coq literals (unit GenTableEnums)."""
-import dumplib as D
+import warnings
+warnings.simplefilter("ignore")
+import dumplib as D  # noqa: E402
 from rig.routing_table import Routes
 
 out = [D.HEADER % "dump_c04.py"]
